@@ -59,7 +59,7 @@ fn markable_app() -> impl Strategy<Value = AppReq> {
 }
 
 pub fn case_strategy() -> impl Strategy<Value = Case> {
-    scenario_quiet(Fam::Any).prop_flat_map(|scn| {
+    {
         let m = prop_oneof![
             1 => prop_oneof![3 => Just(2u16), 1 => (2u16..12), 1 => any::<u16>().prop_map(|o| if o == 1 { 2 } else { o })].prop_map(|op| Marked::Arp { op }),
             2 => (any::<bool>(), any::<u16>(), any::<u16>(), bytes(40)).prop_map(|(na, id, seq, data)| Marked::Icmp { na, id, seq, data }),
@@ -67,8 +67,8 @@ pub fn case_strategy() -> impl Strategy<Value = Case> {
             10 => (markable_app(), any::<bool>(), port(), port(), any::<u8>()).prop_map(|(base, tcp, sport, dport, variant)| Marked::App { base, tcp, sport, dport, variant }),
             4 => (prop_oneof![stun_req_magic_big().prop_map(AppReq::Stun), rpc_call().prop_map(AppReq::Rpc), smb_req().prop_map(AppReq::Smb)], markable_app(), port(), port(), any::<u8>()).prop_map(|(first, base, sport, dport, variant)| Marked::AppLater { first, base, sport, dport, variant }),
         ];
-        (Just(scn), m).prop_map(|(scn, m)| Case { scn, m })
-    })
+        (scenario_quiet(Fam::Any), m).prop_map(|(scn, m)| Case { scn, m })
+    }
 }
 
 /// (marker-set bytes, which responder's protocol it is)
@@ -475,9 +475,9 @@ impl Prop for C12 {
         "twin construction per protocol: a request from the protocol's generator and the same bytes with the protocol's reply marker set — ARP operation != 1, ICMP type 0 / ICMPv6 129 / neighbour advertisement, TCP exactly SYN|ACK and exactly RST (any seq/ack/ports, with and without payload), DNS QR=1 (questions only; with answers), STUN indication / success / error class (with and without magic cookie), SMB1 flags bit 7, SMB2 flags bit 0, ONC-RPC msg_type 1 over UDP and TCP (application messages wrapped in valid UDP or a handshaken TCP flow). Oracle: the marked message is not answered by its own protocol's responder (independent classifier); any other answer must be recognisably another protocol's (counted as cross_protocol). Reflection: answerable requests (ARP, echo, NS, SYN, DNS/STUN/RPC over UDP incl. attacker-chosen STUN transaction ids, SMB/RPC/DNS/STUN over TCP) sent from the responder's own MAC with no address lists, the reply bounced back verbatim up to depth 6; at most 2 further replies. Non-trivial = marker-cleared twin answered by that protocol / the request was answered; distinct by hash. Also: the reply-typed application message delivered as a LATER segment of a TCP flow that a valid request of the same protocol has already identified (the responder then sees it without a signature in front); and an exhaustive sweep of all 65536 destination and all 65536 source UDP ports over 5 reply-typed datagrams on both IP versions (silence required)."
     }
     fn run(&self, ctx: &mut RunCtx) {
-        let n = ctx.share(ctx.tier.n(400_000, 6_000_000));
+        let n = ctx.share(ctx.tier.n(1_200_000, 10_000_000));
         ctx.run_generated("marked", n, case_strategy(), check);
-        let m = ctx.share(ctx.tier.n(300_000, 4_000_000));
+        let m = ctx.share(ctx.tier.n(800_000, 6_000_000));
         ctx.run_generated("reflect", m, refl_strategy(), refl_check);
         ctx.run_generated("reflect2", m, refl_strategy(), |c, st| refl_check_mode(c, st, true));
         // every destination port and every source port, 5 reply-typed datagrams, both IP versions
